@@ -10,6 +10,7 @@ import (
 	"bytes"
 	"fmt"
 	"math/big"
+	"strings"
 )
 
 // decBuf is one input of a decoder pool.
@@ -211,4 +212,201 @@ func bexpArgs(prefix string, es []bexp) []arg {
 // expClasses: class labels of an entry running the boundary exponents of one family (field, tower, gt, point).
 func expClasses(family string) []string {
 	return []string{"exp:negative_one_word", "exp:negative_one_word/" + family, "exp:boundary_exponents"}
+}
+
+// ---- SetInterface over every accepted dynamic type -----------------------------------------------------
+
+// setInterfaceElt is what a generated field element offers for this purpose.
+type setInterfaceElt[T any] interface {
+	*T
+	SetInterface(interface{}) (*T, error)
+	Marshal() []byte
+}
+
+// addSetInterface registers one entry per dynamic type accepted by Element.SetInterface (read off the generated
+// switch: Element, *Element, uint8/16/32/64, uint, int8/16/32/64, int, string, *big.Int, big.Int by value, []byte;
+// nil and anything else are errors), with values inside and outside [0,q), negative, and wider than the modulus.
+// Every argument object is shared and under the purity oracle; for a big.Int passed BY VALUE the shared object is
+// the caller's variable, whose limb array the copy aliases (argument snapshots cover the limbs up to cap, and the sign).
+func addSetInterface[T any, PT setInterfaceElt[T]](b *builder, pkg string, mod *big.Int, elems []T, d *detReader) {
+	set := func(o *out, v interface{}) {
+		var z T
+		_, err := PT(&z).SetInterface(v)
+		o.err(err)
+		if err == nil {
+			o.b(PT(&z).Marshal())
+		}
+	}
+	one := big.NewInt(1)
+	wide := new(big.Int).SetBytes(d.bytes(2*((mod.BitLen()+7)/8) + 5))
+	newBigs := func() []*big.Int {
+		return []*big.Int{
+			big.NewInt(0), big.NewInt(5), new(big.Int).Sub(mod, one), new(big.Int).Set(mod), new(big.Int).Add(mod, one),
+			new(big.Int).Add(mod, mod), new(big.Int).Neg(new(big.Int).Sub(mod, one)), big.NewInt(-1), big.NewInt(-77),
+			new(big.Int).Set(wide), new(big.Int).Neg(wide), new(big.Int).Lsh(one, 64), new(big.Int).Neg(new(big.Int).Lsh(one, 63)),
+		}
+	}
+	bigsP, bigsV := newBigs(), newBigs() // distinct objects for the pointer and the by-value entries
+	bigArgs := func(prefix string, bs []*big.Int) []arg {
+		var r []arg
+		for i, x := range bs {
+			r = append(r, sh(fmt.Sprintf("%s:%s:%d", pkg, prefix, i), x))
+		}
+		return r
+	}
+	var strs []string
+	var byteVals [][]byte
+	for _, x := range bigsP {
+		strs = append(strs, x.String(), "0x"+new(big.Int).Abs(x).Text(16))
+		byteVals = append(byteVals, spareOf(new(big.Int).Abs(x).Bytes(), 8))
+	}
+	strs = append(strs, "", "not a number", "-0b101", "0o17")
+	byteVals = append(byteVals, spareOf([]byte{}, 4))
+	add := func(typ string, args []arg, run func(o *out)) {
+		e := b.add(pkg+".SetInterface["+typ+"]", func() []byte {
+			var o out
+			run(&o)
+			return o.Bytes()
+		}, args...)
+		e.classes = []string{"setinterface:" + typ}
+	}
+	pool, light := b.pool, b.light
+	b.pool, b.light = true, true
+	add("Element", []arg{sh(pkg+":siElems", elems)}, func(o *out) {
+		for i := range elems {
+			set(o, elems[i])
+		}
+	})
+	add("*Element", []arg{sh(pkg+":siElems", elems)}, func(o *out) {
+		for i := range elems {
+			set(o, &elems[i])
+		}
+		set(o, PT(nil))
+	})
+	b.light = false
+	add("uint", nil, func(o *out) {
+		for _, v := range []uint64{0, 1, 255, 1 << 31, 1<<63 + 3, ^uint64(0)} {
+			set(o, uint8(v))
+			set(o, uint16(v))
+			set(o, uint32(v))
+			set(o, uint(v))
+			set(o, v)
+		}
+	})
+	add("int", nil, func(o *out) {
+		for _, v := range []int64{0, 1, -1, 127, -128, 1 << 40, -(1 << 40), 1<<63 - 1, -(1 << 63)} {
+			set(o, int8(v))
+			set(o, int16(v))
+			set(o, int32(v))
+			set(o, int(v))
+			set(o, v)
+		}
+	})
+	add("string", nil, func(o *out) {
+		for _, s := range strs {
+			set(o, s)
+		}
+	})
+	b.light = true
+	add("*big.Int", bigArgs("siBigPtr", bigsP), func(o *out) {
+		for _, x := range bigsP {
+			set(o, x)
+		}
+		set(o, (*big.Int)(nil))
+	})
+	add("big.Int", bigArgs("siBigVal", bigsV), func(o *out) {
+		for _, x := range bigsV {
+			set(o, *x) // by value: the copy shares x's limbs
+		}
+	})
+	add("[]byte", []arg{sh(pkg+":siBytes", byteVals)}, func(o *out) {
+		for _, x := range byteVals {
+			set(o, x)
+		}
+	})
+	b.light = false
+	add("nil/unsupported", nil, func(o *out) {
+		set(o, nil)
+		set(o, 3.5)
+		set(o, []int{1})
+		set(o, struct{}{})
+	})
+	b.pool, b.light = pool, light
+}
+
+// ---- pool stress -------------------------------------------------------------------------------------------
+
+// stressOp is one slow-path conversion that holds scratch values of the process-wide big.Int pool for a long
+// time (numerals of tens of thousands of digits). The concurrent suite runs 48 and 64 goroutines of them at once.
+type stressOp struct {
+	name string
+	run  func() []byte
+	want []byte
+}
+
+func (b *builder) addStress(name string, run func() []byte) {
+	b.g.stress = append(b.g.stress, &stressOp{name: b.g.name + "/" + name, run: run})
+}
+
+// hugeNumeral returns a decimal numeral of n digits.
+func hugeNumeral(d *detReader, n int) string {
+	raw := d.bytes(n)
+	for i := range raw {
+		raw[i] = '0' + raw[i]%10
+	}
+	if raw[0] == '0' {
+		raw[0] = '7'
+	}
+	return string(raw)
+}
+
+// addFieldStress registers the slow-path conversions of one field package.
+func addFieldStress[T any, PT interface {
+	*T
+	SetString(string) (*T, error)
+	SetBigInt(*big.Int) *T
+	SetBytes([]byte) *T
+	UnmarshalJSON([]byte) error
+	SetInterface(interface{}) (*T, error)
+	Text(int) string
+	Marshal() []byte
+}](b *builder, pkg string, d *detReader) {
+	// The scratch values must be held by MANY goroutines at the same moment. A conversion holds one scratch value
+	// while it parses its input and a second one while it reduces the parsed value (the nested SetBigInt). SetBytes of
+	// a long string parses in no time, so a goroutine looping over it holds TWO values almost all the time; the
+	// other conversions (hexadecimal / decimal numerals, JSON, huge negative big.Int) are mixed in.
+	const n = 65536
+	hexNum := "0x" + strings.Repeat("9abcdef012345678", n/16)
+	num := hugeNumeral(d, n/8)
+	big1, _ := new(big.Int).SetString(hexNum, 0)
+	big1.Neg(big1)
+	js := []byte(hugeNumeral(d, n/4))
+	for k := 0; k < 4; k++ {
+		raw := d.bytes(n/2 + 1000*k)
+		b.addStress(fmt.Sprintf("%s.SetBytes[%d bytes x60]#%d", pkg, len(raw), k), func() []byte {
+			var y T
+			for r := 0; r < 60; r++ {
+				PT(&y).SetBytes(raw)
+			}
+			return new(out).b(PT(&y).Marshal()).s(PT(&y).Text(16)).Bytes()
+		})
+	}
+	b.addStress(pkg+".SetString/SetInterface(hex numeral)", func() []byte {
+		var z, y T
+		var err, err2 error
+		for r := 0; r < 3; r++ {
+			_, err = PT(&z).SetString(hexNum)
+			_, err2 = PT(&y).SetInterface(hexNum)
+		}
+		return new(out).err(err).err(err2).b(PT(&z).Marshal()).b(PT(&y).Marshal()).s(PT(&z).Text(10)).Bytes()
+	})
+	b.addStress(pkg+".SetBigInt(huge negative)/UnmarshalJSON/SetString(decimal numerals)", func() []byte {
+		var z, y, w T
+		for r := 0; r < 20; r++ {
+			PT(&z).SetBigInt(big1)
+		}
+		err := PT(&w).UnmarshalJSON(js)
+		_, err2 := PT(&y).SetString(num)
+		return new(out).err(err).err(err2).b(PT(&z).Marshal()).b(PT(&y).Marshal()).b(PT(&w).Marshal()).Bytes()
+	})
 }
